@@ -1,6 +1,10 @@
 package sim
 
-import "fmt"
+import (
+	"fmt"
+
+	"massnet.org/mass-wallet/masswallet/keystore"
+)
 
 func init() { Runners["C01"] = runC01 }
 
@@ -44,6 +48,9 @@ func setupWallets(w *World, inst *Instance, n int) error {
 		na := 1 + t.Int(3)
 		for j := 0; j < na; j++ {
 			if _, err := inst.NewAddress(t.Bool(25), true); err != nil {
+				if err == keystore.ErrGapLimit {
+					break // small gap limits legitimately refuse unused runs of addresses
+				}
 				return fmt.Errorf("NewAddress: %w", err)
 			}
 		}
@@ -59,7 +66,7 @@ func finalCheck(w *World, inst *Instance, class string) {
 	budget := 5000 + 500*pending
 	n, ok := w.S.Quiesce(budget)
 	if !ok {
-		w.Violate(class+".liveness", "not quiescent after %d fair steps with %d queued notifications: %v", n, pending, w.S.ParkedSummary())
+		w.Violate(class+".liveness", "not quiescent after %d fair steps with %d queued notifications: %v | wallet errors: %q", n, pending, w.S.ParkedSummary(), w.RecentErrors(4))
 		return
 	}
 	if len(w.S.FatalExits) > 0 {
